@@ -51,6 +51,26 @@ var solvers = []solverSpec{
 	}},
 }
 
+// SetSeed adds, for a non-zero seed, one seeded run of each solver family to the portfolio. The
+// default members always run with their default seeds, so what is provable without a seed stays
+// provable with one: the seed can only add proofs, never remove them.
+func SetSeed(seed int) {
+	if seed == 0 || seededAdded {
+		return
+	}
+	seededAdded = true
+	sd := seed % 100000
+	solvers = append(solvers,
+		solverSpec{fmt.Sprintf("z3-new-5.1.0/seed%d", sd), func(f string, t int) []string {
+			return []string{"z3-new", fmt.Sprintf("-T:%d", t), fmt.Sprintf("smt.random_seed=%d", sd), fmt.Sprintf("sat.random_seed=%d", sd), f}
+		}},
+		solverSpec{fmt.Sprintf("cvc5-1.0/seed%d", sd), func(f string, t int) []string {
+			return []string{"cvc5", "--strings-exp", "--produce-models", fmt.Sprintf("--seed=%d", sd), fmt.Sprintf("--tlimit=%d", t*1000), f}
+		}})
+}
+
+var seededAdded bool
+
 // Query renders the SMT query of an obligation.
 func (o *Obligation) Query(seed int) string { return o.query(seed, false) }
 
@@ -66,9 +86,10 @@ func (o *Obligation) query(seed int, relaxed bool) string { return o.queryOpt(se
 func (o *Obligation) queryOpt(seed int, relaxed bool, sliced bool) string {
 	var b strings.Builder
 	b.WriteString("(set-option :produce-models true)\n")
-	if seed != 0 {
-		fmt.Fprintf(&b, "(set-option :random-seed %d)\n", seed%100000)
-	}
+	// The seed never changes the text of a query (an earlier version wrote (set-option :random-seed N),
+	// which cvc5 answers with "unsupported" on the first output line, so that its verdicts were ignored
+	// whenever a seed was set). A non-zero seed ADDS seeded portfolio members, see SetSeed.
+	_ = seed
 	b.WriteString("(set-logic ALL)\n")
 	sc := o.Script
 	for _, p := range sc.prelude {
@@ -235,6 +256,13 @@ func solveWith(solvers []solverSpec, query string, timeoutS int, all bool, probe
 			}
 			// drop solver warnings preceding the answer
 			for strings.HasPrefix(txt, "WARNING") || strings.HasPrefix(txt, "(warning") {
+				if i := strings.Index(txt, "\n"); i >= 0 {
+					txt = txt[i+1:]
+				} else {
+					break
+				}
+			}
+			for strings.HasPrefix(txt, "unsupported") || strings.HasPrefix(txt, "success") {
 				if i := strings.Index(txt, "\n"); i >= 0 {
 					txt = txt[i+1:]
 				} else {
